@@ -407,6 +407,10 @@ class _GitFile(IO[bytes]):
                     # Windows versions prior to Vista don't support atomic
                     # renames
                     _fancy_rename(self._lockfilename, self._filename)
+            # The lock file has been renamed away: the lock is released.  Do
+            # not let abort() remove a lock file of the same name that another
+            # writer may have created in the meantime.
+            self._closed = True
         finally:
             self.abort()
 
